@@ -477,8 +477,11 @@ class Edit(Text):
                 if pos == 0:
                     return key
                 pos = move_prev_char(self.edit_text, 0, pos)
-                self.set_edit_text(self.edit_text[:pos] + self.edit_text[self.edit_pos :])
+                new_text = self.edit_text[:pos] + self.edit_text[self.edit_pos :]
+                # move first: the cursor is then on a character boundary of the old and of the new text
+                # while the "change" / "postchange" handlers run
                 self.set_edit_pos(pos)
+                self.set_edit_text(new_text)
                 return None
             return None
 
